@@ -34,7 +34,7 @@ ID = "C22"
 COQ_REQUIRE = ["Net", "M_Dpop", "M_DpopValid", "M_Orch", "M_OrchDpop"]
 COQ_CASE_TYPE = "M_OrchDpop.case2"
 COQ_CHECK = "M_OrchDpop.check_case2"
-OBLIGATIONS = ["orch_finishes_iff_all_ended", "orch_reports_last_values",
+OBLIGATIONS = ["orch_finishes_iff_all_ended", "orch_stop_requested_iff", "orch_reports_last_values",
                "orch_cost_accounts_assignment",
                "orch_cost_none_iff_incomplete", "orch_cost_none_unguarded_refuted",
                "orch_deploy_each_once", "orch_run_each_once", "dpop_events_ordered",
@@ -106,7 +106,10 @@ def _gen_real(rng):
     return dict(kind="real", spec=spec, n_agents=n_agents, dist=dist,
                 capacity=rng.choice([2, 3, 1000]) if dist in ("adhoc", "gh_cgdp") else 1000,
                 seed=rng.randrange(1 << 30),
-                switch=rng.choice([1e-6, 1e-5, 1e-4, 1e-3, 5e-3]))
+                switch=rng.choice([1e-6, 1e-5, 1e-4, 1e-3, 5e-3]),
+                # agents that host nothing (oneagent with spare agents) start only after the stop
+                # order: the interleaving of finding C22-late-agent-never-stopped, forced
+                late_idle=rng.random() < 0.4)
 
 
 def _gen_crafted(rng):
@@ -121,7 +124,7 @@ def _gen_crafted(rng):
             var_costs[str(i)] = [rt.INFINITY if rng.random() < 0.15 else rng.randint(0, 5)
                                  for _ in range(spec["doms"][i])]
     script = []
-    regs = [a for a in agents if rng.random() < 0.9]
+    regs = [a for a in agents if rng.random() < 0.8]
     rng.shuffle(regs)
     for a in regs:
         script.append(["agent_added", a])
@@ -162,6 +165,9 @@ def _gen_crafted(rng):
         if rng.random() < 0.8:
             tail.append(["agent_removed", a])
     rng.shuffle(tail)
+    late = [a for a in agents if a not in regs]
+    if late and rng.random() < 0.7:      # an agent that registers after the others finished
+        tail.insert(rng.randrange(len(tail) + 1), ["agent_added", rng.choice(late)])
     script += tail
     if rng.random() < 0.3:      # late messages after everything stopped
         script.append(["value", rng.choice(comps), 0])
@@ -234,6 +240,26 @@ def _real(case):
         # property is about valid distributions, so retry with ample capacity
         dcop = rt.build_dcop(case["spec"], case["n_agents"], capacity=1000)
         algo, cg, dist = rt.build_runtime(dcop, "dpop", case["dist"], rng_seed=case["seed"])
+    if case.get("late_idle"):
+        import threading
+        from pydcop.infrastructure import orchestratedagents as oa, orchestrator as om
+        # only agents the orchestrator does not wait for before deploying (not in the mapping)
+        busy = set(dist.mapping().keys())
+        gate = threading.Event()
+        orig_start, orig_stop = oa.OrchestratedAgent.start, om.AgentsMgt._orchestrator_stop_agents
+
+        def start(self, *a, **k):
+            if self.name in busy:
+                return orig_start(self, *a, **k)
+            threading.Thread(target=lambda: (gate.wait(RUN_TIMEOUT), time.sleep(0.02), orig_start(self, *a, **k)),
+                             daemon=True).start()
+
+        def stop_agents(self, *a):
+            try:
+                return orig_stop(self, *a)
+            finally:
+                gate.set()
+        oa.OrchestratedAgent.start, om.AgentsMgt._orchestrator_stop_agents = start, stop_agents
     tr = rt.MgtTrace().install()
     # snapshot first: Distribution.computations_hosted() on a defaultdict mapping (oneagent)
     # inserts the agents it is asked about, so dist.agents grows during the run
@@ -614,6 +640,7 @@ def oracle(case, o):
     # ---- termination: the stop order goes out because of the last end_of_computation
     nodes = set(o["static"]["nodes"])
     ended = set()
+    ordered = False       # the stop order has been given (to the agents registered then)
     for (ev, outs), e in zip(evs, o["trace"]):
         t = ev["t"]
         stops = [x[1] for x in outs if x[0] == "stop"]
@@ -623,9 +650,16 @@ def oracle(case, o):
         expect = (t == "end" and nodes <= ended) or t == "stopreq"
         if expect and stops != agents_now:
             return "stop expected for %r after %r, sent to %r" % (agents_now, ev, stops)
-        if not expect and stops:
+        if t == "agent_added" and ordered:
+            # an agent registering after the stop order must be stopped too, or the run never
+            # ends by itself (C22-late-agent-never-stopped, fixed)
+            if stops != [ev["agent"]]:
+                return "agent %s registered after the stop order and was not told to stop (%r)" % (
+                    ev["agent"], stops)
+        elif not expect and stops:
             return "agents stopped by %r although computations %r have not finished" % (
                 ev, sorted(nodes - ended))
+        ordered = ordered or expect
     if case["kind"] == "real":
         if o["status"] != "OK":
             return "run ended with status %s (not by end of all computations)" % o["status"]
